@@ -21,7 +21,7 @@ var ev *evid.E
 
 func TestMain(m *testing.M) {
 	ev = evid.New("C17", "exploration",
-		"differential: for every decodable layer, ordered pairs (A, B) of valid reference encodings of the same layer with generated (and therefore differing) optional tails, lengths "+
+		"differential: for every decodable layer, ordered pairs (A, B) where B is a valid reference encoding and A a valid or (in a quarter of the cases) malformed/rejected one; pairs of the same layer with generated (and therefore differing) optional tails, lengths "+
 			"and branches are decoded A-then-B into one value and B alone into a fresh value; all exported fields (byte slices by content, nil == empty) must agree. The same for "+
 			"session wrappers, messages and v1.5 wrappers; for command values reused through SendCommand; and for every ordered pair of catalogue commands issued back-to-back on one "+
 			"connection / session versus on a fresh one. Non-trivial = A and B differ in length or branch; distinct by (layer, A, B)")
@@ -60,7 +60,19 @@ func TestLayerReuse(t *testing.T) {
 			t.Skip("no second encoding of the same layer drawn")
 		}
 		reused := a.Fresh()
-		if err := reused.DecodeFromBytes(exact(a.Wire), gopacket.NilDecodeFeedback); err != nil {
+		aWire := a.Wire
+		corruptA := rapid.IntRange(0, 3).Draw(t, "corruptA") == 0
+		if corruptA {
+			// the earlier input may also be a malformed one (cut or altered): its
+			// decode error is ignored, only what it leaves behind matters
+			aWire = append([]byte(nil), a.Wire...)
+			if len(aWire) > 0 && rapid.Bool().Draw(t, "cutA") {
+				aWire = aWire[:rapid.IntRange(0, len(aWire)-1).Draw(t, "cutAt")]
+			} else if len(aWire) > 0 {
+				aWire[rapid.IntRange(0, len(aWire)-1).Draw(t, "posA")] ^= byte(rapid.IntRange(1, 255).Draw(t, "maskA"))
+			}
+		}
+		if err := reused.DecodeFromBytes(exact(aWire), gopacket.NilDecodeFeedback); err != nil && !corruptA {
 			t.Fatalf("%s: valid encoding A rejected: %v", a.Name, err)
 		}
 		if err := reused.DecodeFromBytes(exact(b.Wire), gopacket.NilDecodeFeedback); err != nil {
@@ -111,7 +123,7 @@ func TestWrapperReuse(t *testing.T) {
 		switch kind {
 		case 0:
 			a, b, name = genV2(t), genV2(t), "V2Session"
-			mk = func() gopacket.DecodingLayer { return &ipmi.V2Session{IntegrityAlgorithm: hx.IntegHash(ref.IntegSHA1_96, key)} }
+			mk = func() gopacket.DecodingLayer { return &ipmi.V2Session{IntegrityAlgorithm: hx.TruncHMACSHA1(key)} }
 		case 1:
 			a, b, name = genV1(t), genV1(t), "V1Session"
 			mk = func() gopacket.DecodingLayer { return &ipmi.V1Session{} }
@@ -120,7 +132,19 @@ func TestWrapperReuse(t *testing.T) {
 			mk = func() gopacket.DecodingLayer { return &ipmi.Message{} }
 		}
 		reused, fresh := mk(), mk()
-		if err := reused.DecodeFromBytes(exact(a), gopacket.NilDecodeFeedback); err != nil {
+		corruptA := rapid.IntRange(0, 2).Draw(t, "corruptA") == 0
+		if corruptA && len(a) > 0 {
+			// an earlier packet that is rejected (bad AuthCode, checksum, cut) must not
+			// influence how the next one decodes
+			a = append([]byte(nil), a...)
+			if rapid.Bool().Draw(t, "cutA") {
+				a = a[:rapid.IntRange(0, len(a)-1).Draw(t, "cutAt")]
+			} else {
+				a[len(a)-1-rapid.IntRange(0, len(a)-1).Draw(t, "fromEnd")] ^= byte(rapid.IntRange(1, 255).Draw(t, "maskA"))
+			}
+			ev.Label("wrapper-after-rejected:" + name)
+		}
+		if err := reused.DecodeFromBytes(exact(a), gopacket.NilDecodeFeedback); err != nil && !corruptA {
 			t.Fatalf("%s: A rejected: %v (% x)", name, err, a)
 		}
 		if err := reused.DecodeFromBytes(exact(b), gopacket.NilDecodeFeedback); err != nil {
@@ -268,5 +292,5 @@ func TestCommandValueReuse(t *testing.T) {
 
 func TestCoverage(t *testing.T) {
 	ev.RequireLabels(t, 1, "pairs-complete", "layer-branch-differs:GetDeviceIDRsp", "layer-branch-differs:GetSessionInfoRsp", "layer-branch-differs:GetChassisStatusRsp",
-		"layer-branch-differs:OpenSessionRsp", "layer-branch-differs:RAKPMessage2", "layer-branch-differs:GetDCMISensorInfoRsp", "layer-branch-differs:DCMICaps", "wrapper:V1Session", "wrapper:V2Session", "wrapper:Message")
+		"layer-branch-differs:OpenSessionRsp", "layer-branch-differs:RAKPMessage2", "layer-branch-differs:GetDCMISensorInfoRsp", "layer-branch-differs:DCMICaps", "wrapper:V1Session", "wrapper:V2Session", "wrapper:Message", "wrapper-after-rejected:V2Session")
 }
